@@ -298,6 +298,8 @@ type c16lRun struct {
 	undec  atomic.Int64
 	mu     sync.Mutex
 	clamp  [3]atomic.Uint64 // commit index the node is allowed to learn (0 = no limit)
+	fresh  [3]bool          // the condition keeps this node in contact with the leader: read only while the contact is recent
+	held   [3]bool          // the condition holds this node's commit index back
 }
 
 func (x *c16lRun) fail(f string, a ...any) {
@@ -361,9 +363,16 @@ func (x *c16lRun) one(cs c16lCase, level proto.ConsistencyLevel) {
 	}
 	for try := 0; ; try++ {
 		quorum := x.quorum(cs.Node)
+		if x.fresh[cs.Node] && s.raft.State() != raft.Leader {
+			// contact is renewed every 50-100 ms; start the read right after one
+			x.poll("recent contact from the leader", func() bool { return x.since(cs.Node) < time.Duration(c16lSmall)/2 })
+		}
 		pre := c16lSnapOf(s)
 		outcome, err := c16lRead(s, cs, level)
 		post := c16lSnapOf(s)
+		if err == nil && (level == proto.ConsistencyLevel_STRONG || level == proto.ConsistencyLevel_LINEARIZABLE) {
+			x.afterLogRead(cs.Node)
+		}
 		want, why := c16lExpect(level, c16lVoter[cs.Node], quorum, pre, post, cs.Freshness, cs.Strict)
 		if want == "" {
 			if try < c16lRetries {
@@ -402,6 +411,30 @@ func (x *c16lRun) one(cs c16lCase, level proto.ConsistencyLevel) {
 		}
 		return
 	}
+}
+
+// afterLogRead: a strong read served by node l went through the log. Before the
+// next case, every node in contact has received that entry, and has applied it
+// unless the condition holds its commit index back - so that the state the next
+// reads find does not depend on how fast replication happened to be.
+func (x *c16lRun) afterLogRead(l int) {
+	ls := x.c.nodes[l].store()
+	if ls == nil || ls.raft.State() != raft.Leader {
+		return
+	}
+	li := ls.fsmIdx.Load()
+	x.poll("the strong read's log entry reached every node in contact", func() bool {
+		for j := range x.c.nodes {
+			s := x.c.nodes[j].store()
+			if j == l || s == nil || !x.c.net.Connected(l, j) {
+				continue
+			}
+			if s.raftTn.CommandCommitIndex() < li || (!x.held[j] && s.fsmIdx.Load() < li) {
+				return false
+			}
+		}
+		return true
+	})
 }
 
 // product runs every case of the product on the given nodes; levels selects the levels (nil = all).
@@ -466,6 +499,9 @@ func (x *c16lRun) caughtUp(nodes ...int) {
 	x.poll("nodes caught up with the leader and in contact", func() bool {
 		li := x.c.nodes[l].store().fsmIdx.Load()
 		for _, i := range nodes {
+			if i == l {
+				continue
+			}
 			s := x.c.nodes[i].store()
 			if s == nil || s.fsmIdx.Load() != li || x.since(i) > time.Duration(c16lSmall)/2 {
 				return false
@@ -488,7 +524,8 @@ func (x *c16lRun) installClamp(i int) {
 
 func (x *c16lRun) healthy(cond string) {
 	names, _ := x.roles()
-	x.caughtUp(1, 2, 0)
+	x.caughtUp(0, 1, 2)
+	x.fresh = [3]bool{true, true, true}
 	x.product(cond, names, []int{0, 1, 2}, nil, nil)
 }
 
@@ -499,10 +536,12 @@ func (x *c16lRun) jobA() {
 	// the non-voter alone is cut off
 	names, _ := x.roles()
 	c.net.Isolate(2)
+	x.fresh[2] = false
 	x.poll("non-voter out of contact for longer than the small bound", func() bool { return x.since(2) > time.Duration(c16lSmall)*3/2 })
 	x.product("nonvoter-cut-off", names, []int{0, 1, 2}, nil, nil)
 	c.net.Heal()
-	x.caughtUp(1, 2)
+	x.fresh[2] = true
+	x.caughtUp(0, 1, 2)
 
 	// follower and non-voter restarted
 	l := c.Leader()
@@ -529,6 +568,7 @@ func (x *c16lRun) jobA() {
 	x.caughtUp(others...)
 	for _, i := range others {
 		x.clamp[i].Store(k)
+		x.held[i] = true
 	}
 	k1 := x.write("c16-b", 1)
 	received := func(idx uint64) func() bool {
@@ -572,6 +612,7 @@ func (x *c16lRun) jobA() {
 			x.fail("n%d applied index %d while its commit index is held at %d", i, got, k1)
 		}
 		x.clamp[i].Store(0)
+		x.held[i] = false
 	}
 	x.caughtUp(others...)
 }
@@ -587,6 +628,7 @@ func (x *c16lRun) jobB() {
 		}
 	}
 	c.net.Isolate(l)
+	x.fresh = [3]bool{}
 	// nothing sent before the partition is still on its way; the others are out of contact
 	time.Sleep(time.Second)
 	x.poll("the others out of contact for longer than the small bound", func() bool {
